@@ -38,6 +38,7 @@ func TestSweep(t *testing.T) {
 		for _, ch := range []int{2, 3, 8} {
 			Oracle.One(t, env, rec, "sweep", &Case{S: e.S.Name, D: e.D.Name, Xs: vals(Bounds(e)), Ch: ch})
 		}
+		Oracle.One(t, env, rec, "sweep", &Case{S: e.S.Name, D: e.D.Name, Xs: vals(Bounds(e)), Fix: 3}) // buffers recycled through a pool
 		if e.S.Bits == 64 {
 			// float32-exact inputs at every quantisation step of 8-bit (and a stride of 16-bit) destinations, each with its float64 neighbours
 			d := e.D.Bits
